@@ -77,6 +77,8 @@ def from_lean(j):
     for name, k in j["vars"]:
         if k["k"] == "B":
             vars_[name] = ("B", 0.0, 1.0)
+        elif k["k"] == "I":
+            vars_[name] = ("I", 0.0, float(k["ub"]))
         else:
             lb = -INF if k.get("lb") is None else float(Fraction(k["lb"]))
             ub = INF if k.get("ub") is None else float(Fraction(k["ub"]))
